@@ -36,6 +36,8 @@ type brokerPart struct {
 	checkDetails func(pub int, rcv int, sub *mSub, m *wamp.Publish, ev *wamp.Event) string
 	// configured history subscriptions exist without members
 	persistent map[string]bool
+	// metaAsserted: a meta part expects meta events exactly, so they are not ignored
+	metaAsserted bool
 }
 
 func newBrokerPart(w *World) *brokerPart {
@@ -45,7 +47,9 @@ func newBrokerPart(w *World) *brokerPart {
 func subKey(realm, class, topic string) string { return realm + "|" + class + "|" + topic }
 func idKey(realm string, id wamp.ID) string    { return fmt.Sprintf("%s|%d", realm, id) }
 
-func (b *brokerPart) Ignore(w *World, s int, m wamp.Message) bool { return isMetaEvent(m) }
+func (b *brokerPart) Ignore(w *World, s int, m wamp.Message) bool {
+	return !b.metaAsserted && isMetaEvent(m)
+}
 
 func (b *brokerPart) AfterStep(w *World, st *StepRec, exp Exp) *Violation { return nil }
 
@@ -63,6 +67,8 @@ func (b *brokerPart) OnEnded(w *World, st *StepRec, idx int, exp Exp) {
 		}
 		delete(s.members, idx)
 		b.touched[k] = true
+		w.st.Label("nt05")
+		w.st.Label("ended_with_subscription")
 		if b.onUnsubscribe != nil {
 			b.onUnsubscribe(st, idx, s, true)
 		}
